@@ -32,6 +32,10 @@ def seeds():
                                       stub=rng.choice([b"", b"\xfc\xe8" + b"\x90" * 5 + b"\xff\xff\xff"])))
     out.append(gens.guardrails_payload(b"envkey", (5, 6, 7, 8), config=blk[:2000], prefix=b"\x90" * 5, suffix=b"\xcc" * 4))
     out.append(gens.guardrails_payload(b"k", terminator=False))
+    # Guardrails areas that are as regular as they can be (one distinct n-gram at some key lengths), checksum right and wrong
+    for key in (b"AA", b"AB", b"\x2e\x2e", b"ABAB"):
+        for bad in (True, False):
+            out.append(gens.guardrails_payload(key, (5,), config=b"", prefix=b"\x90" * rng.choice([0, 100]), bad_checksum=bad))
     out.append(gens.mini_pe(nsections=0xFFFF)[:600])
     out.append(gens.mini_pe(e_lfanew=-4 & 0x7fffffff)[:300])
     out.append(gens.mini_pe(export_rva=0xfffffff0))
